@@ -504,6 +504,7 @@ func ruleReadAtCursor(c *Check, rCursor, rProgress string) {
 		for i := range paths {
 			p := &paths[i]
 			cur := ""
+			curVar := ""
 			for j := range p.Events {
 				e := &p.Events[j]
 				if e.Kind != "call" || e.Callee != "csproto.DecodeVarint" && e.Callee != "snapshot.skipTag" {
@@ -527,6 +528,11 @@ func ruleReadAtCursor(c *Check, rCursor, rProgress string) {
 					c.Bad(rCursor, name+"/decode-at-cursor:"+e.Callee, "a decode/skip call reads from the start of the buffer ("+arg+") instead of from the read cursor", evPos(c, e), describe(c, p))
 					continue
 				}
+				if cur == "" && strings.HasPrefix(off, "loop:") && strings.Contains(off, "@") {
+					// the read cursor: the loop-carried variable the first read of
+					// an iteration slices the buffer at
+					curVar = off[len("loop:"):strings.Index(off, "@")]
+				}
 				if cur != "" && !strings.Contains(off, cur) {
 					bad++
 					c.Bad(rCursor, name+"/cursor-monotone:"+e.Callee, "a decode call reads at "+off+", which is not the cursor advanced from the previous read position "+cur, evPos(c, e), nil)
@@ -535,7 +541,8 @@ func ruleReadAtCursor(c *Check, rCursor, rProgress string) {
 			}
 			if strings.HasPrefix(p.End, "backedge:") {
 				nCycle++
-				nv := backedgeVal(p, "offset")
+				// the read cursor: the function's loop-carried int
+				nv := backedgeVal(p, curVar)
 				// progress: the new cursor adds at least one successfully decoded varint length
 				if nv == "" || !strings.Contains(nv, "csproto.DecodeVarint(") || !strings.Contains(nv, ")#1") {
 					badP++
